@@ -245,7 +245,15 @@ Definition c03_urls_ok (internal_loc : string) (srcs : list (string * schema)) (
       forallb (fun f =>
         (String.eqb (df_name d) "Query" && is_internal_name (fd_name f)) ||
         Nat.eqb (count_occ string_dec (assoc_l (df_name d ++ "." ++ fd_name f)%string urls) (fst src)) 1)
-        (df_fields d)) (s_types (snd src))) srcs.
+        (df_fields d)) (s_types (snd src))) srcs &&
+  (* ... and so is __typename on every composite type it declares (objects, interfaces and unions:
+     the types a valid query may select __typename on) *)
+  forallb (fun src =>
+    forallb (fun d =>
+      is_internal_name (df_name d) ||
+      negb (kind_eqb (df_kind d) KObject || kind_eqb (df_kind d) KInterface || kind_eqb (df_kind d) KUnion) ||
+      Nat.eqb (count_occ string_dec (assoc_l (df_name d ++ ".__typename")%string urls) (fst src)) 1)
+      (s_types (snd src))) srcs.
 
 Definition c03_holds (internal_loc : string) (sources : list (string * schema)) (internal : schema) (obs : list observed) : bool :=
   forallb (fun o =>
